@@ -1,12 +1,13 @@
 """C01 - rotated stream complete, duplicate-free, in order."""
 import gen_flw as g
 
-CLAIM = ("Proved in Coq for the model: for Numbers naming, every criterion, buffer capacity and append setting, every history of "
-         "writes/raw chunks/flushes/triggers/ticks from an empty directory, the files r00000..r(k-1), rCURRENT read in this order hold "
-         "exactly the written bytes, once, in order (C01_stream_numbers); the stream oracle is proved sound (C01_oracle_sound). For the "
-         "timestamp namings, NumbersDirect and custom formats the statement is partial: it is decided on every explored history by the "
-         "correspondence check plus the oracle (files read in reader order = parsed infix order) applied to the implementation's directory.")
-THEOREMS = ["C01_stream_numbers", "C01_oracle_sound"]
+CLAIM = ('Proved in Coq for the model: for Numbers naming (C01_stream_numbers) and NumbersDirect naming '
+         '(C01_stream_numbersdirect), every criterion, buffer capacity and append setting, every history of writes / raw chunks '
+         '/ flushes / triggers / ticks from an empty directory, the files r00000.. (and rCURRENT) read in this order hold '
+         'exactly the written bytes, once, in order; the stream oracle is proved sound (C01_oracle_sound). For the time-stamp '
+         'namings and custom formats the statement is partial: it is decided on every explored history by the correspondence '
+         "check plus the oracle (files read in reader order = parsed infix order) applied to the implementation's directory. ")
+THEOREMS = ["C01_stream_numbers", "C01_stream_numbersdirect", "C01_oracle_sound"]
 TRUSTED = ["modelled, not verified: std BufWriter/File semantics, rename/open/truncate of the OS (Fs/Fs.v), chrono's formatting of timestamps (Time/)"]
 ASSUMPTIONS = ["no I/O faults, no kill, no external modification of the directory during the run",
                "single logging thread, synchronous write modes; cleanup = Never"]
